@@ -70,6 +70,8 @@ Section CheckerAuth.
        ai_target_member := ai_target_member r;
        ai_tpi_event := if empty_token_invite e then None else ai_tpi_event r;
        ai_sig_ok := if empty_token_invite e then false else ai_sig_ok r;
+       ai_sig_ok_spec := if empty_token_invite e then false else ai_sig_ok_spec r;
+       ai_tpi_sender_ok := if empty_token_invite e then false else ai_tpi_sender_ok r;
        ai_via_split_ok := ai_via_split_ok r;
        ai_via_member := ai_via_member r;
        ai_new_pl := ai_new_pl r;
